@@ -437,7 +437,9 @@ def run(ck, prog, tier):
         'discriminant, every accepted root is tested > 0 and, on reversal paths, > the reversal '
         'tick; (D9) a path that answers "all steps in the initial direction" without a condition '
         'on the step count lies in the region of (rate, accel) where the rate keeps its sign '
-        'after tick 1 (compared on integer points; this rule found defect F10); (D10) the steps '
+        'after tick 1 (compared on integer points; this rule found defect F10); (D11) a path '
+        'taken because the step count exceeds the steps made before a reversal lies where the rate '
+        'does change sign after tick 1; (D10) the steps '
         'made before a reversal are FLOOR(|C(T)|/2^31) with the accumulator polynomial of D3 at '
         'the reversal tick. NOT decided (no static rule in reach): that the chosen root is the '
         '*first* tick reaching the budget when the accumulator lands exactly on a step boundary, '
